@@ -40,7 +40,7 @@ def run_clock(sc):
     for i, t in enumerate(sc['clocks']):
         clocks[i] = TempoClock(float(Fr(t)))
     specs = sc['tasks']
-    log, objs = [], [None] * len(specs)
+    log, objs, stale = [], [None] * len(specs), []
 
     def beats_of(c):
         return now() if c is SystemClock else c.beats
@@ -62,6 +62,12 @@ def run_clock(sc):
 
         def one(k):
             log.append([j, str(Fr(now()))])
+            # two sites: the position of a pending wake-up in the queue vs the beat its entry carries
+            for e in list(main._clock_scheduler.queue._queue):
+                ct = e[2]
+                if hasattr(ct, 'beats') and hasattr(ct, 'clock') and e[0] != ct.clock.beats2secs(ct.beats):
+                    who = next((i for i, o in enumerate(objs) if o is ct.task), -1)
+                    stale.append([who, str(Fr(e[0])), str(Fr(ct.clock.beats2secs(ct.beats))), len(log) - 1])
             for a in steps[k]['acts']:
                 act(a)
             r = steps[k]['ret']
@@ -102,7 +108,7 @@ def run_clock(sc):
             pass
     R = type(main._clock_scheduler.queue)._REMOVED
     left = sum(1 for e in main._clock_scheduler.queue._queue if e[2] is not R)
-    return {'log': log, 'left': left}
+    return {'log': log, 'left': left, 'stale': stale[:3]}
 
 
 def mark(b):
